@@ -2,3 +2,4 @@ import PyFatModel.PyInt
 import PyFatModel.Gen.Consts
 import PyFatModel.Gen.Arith
 import PyFatModel.Gen.Sites
+import PyFatModel.Props.C20
